@@ -1,10 +1,12 @@
 (* C16 — Raft log (etcd WAL) and snapshot files recover to a consistent prefix after any crash.
    Statements only; proofs live in Wal/*Proofs.v.  The executable model is Wal/WalModel.v
-   (encoder, decoder, ReadAll, Verify, Repair, crash images), Wal/SnapModel.v, Wal/Crc32c.v,
-   Wal/Pb.v; it is tied to the Go code by the differential run of ./check C16. *)
-Require Import Base.Bytes Wal.Crc32c Wal.Pb Wal.WalModel Wal.SnapModel.
-Require Import Wal.FrameProofs.
+   (encoder, decoder, ReadAll, Verify, Repair, crash images), Wal/SnapModel.v, Wal/Crc32c.v +
+   Wal/CrcTab.v, Wal/Pb.v; it is tied to the Go code by the differential run of ./check C16. *)
+Require Import Base.Bytes Wal.Crc32c Wal.CrcTab Wal.Pb Wal.WalModel Wal.SnapModel.
+Require Import Wal.FrameProofs Wal.CrcProofs Wal.PbProofs Wal.WalProofs Wal.WalRefuted Wal.SnapProofs.
 Local Open Scope N_scope.
+
+(* ------------------------------------------------------------------ frames *)
 
 (* encodeFrameSize / decodeFrameSize: for every record size that fits the 56-bit length the
    decoder recovers size and padding, the padding is below 8, record+padding and the whole
@@ -17,3 +19,128 @@ Theorem C16_frame_arith : forall n, n < two56 ->
   /\ lenf < two64 /\ (lenf = 0 <-> n = 0).
 Proof. exact frame_arith. Qed.
 Print Assumptions C16_frame_arith.
+
+(* ------------------------------------------------------------------ CRC-32C *)
+
+(* one byte step of the CRC is injective in the state (for a fixed byte) and in the byte (for
+   a fixed state): a shift-xor round is invertible on 32-bit states because bit 31 of the
+   reflected Castagnoli polynomial is set *)
+Theorem C16_crc_step_injective :
+  (forall b s t, s < lim32 -> t < lim32 -> crc_step s b = crc_step t b -> s = t)
+  /\ (forall s a b, s < lim32 -> crc_step s a = crc_step s b -> a = b).
+Proof. split; [exact crc_step_injective_state | exact crc_step_injective_byte]. Qed.
+Print Assumptions C16_crc_step_injective.
+
+(* two equal-length byte strings that differ in exactly one position have different CRCs,
+   from any start value (crc32.Update(c, castagnoli, ·)) *)
+Theorem C16_crc_one_byte : forall c pre a b suf, c < lim32 -> a <> b ->
+  crc_update c (pre ++ a :: suf) <> crc_update c (pre ++ b :: suf).
+Proof. exact crc_update_one_byte. Qed.
+Print Assumptions C16_crc_one_byte.
+
+(* digests that differ stay different over any common continuation *)
+Theorem C16_crc_diverge : forall c d p, c < lim32 -> d < lim32 -> c <> d ->
+  crc_update c p <> crc_update d p.
+Proof. exact crc_update_diverge. Qed.
+Print Assumptions C16_crc_diverge.
+
+(* the table-driven update the model executes (Go's simpleUpdate: tab[byte(crc)^v] ^ crc>>8)
+   is the bitwise definition the theorems are about *)
+Theorem C16_crc_table : forall c p, digest_write c p = crc_update c p.
+Proof. exact digest_write_eq. Qed.
+Print Assumptions C16_crc_table.
+
+(* ------------------------------------------------------------------ wire format *)
+
+Theorem C16_pb_roundtrip :
+  (forall r, rec_ok r -> rec_unmarshal (rec_marshal r) = POk r)
+  /\ (forall e, entry_ok e -> entry_unmarshal (entry_marshal e) = POk e)
+  /\ (forall h, hs_ok h -> hs_unmarshal (hs_marshal h) = POk h)
+  /\ (forall s, walsnap_ok s -> walsnap_unmarshal (walsnap_marshal s) = POk s).
+Proof.
+  split; [exact rec_unmarshal_marshal|]. split; [exact entry_unmarshal_marshal|].
+  split; [exact hs_unmarshal_marshal | exact walsnap_unmarshal_marshal].
+Qed.
+Print Assumptions C16_pb_roundtrip.
+
+(* ------------------------------------------------------------------ records *)
+
+(* any list of records (arbitrary types and payloads below 2^56 bytes) written through the
+   encoder into a segment, followed by k zero bytes of preallocation (k = 0: a closed
+   segment), is read back by the decode loop exactly and in order, stamped with the CRCs of
+   the rolling chain; the file ends in a clean EOF at the end of the data and the decoder's
+   digest equals the encoder's (so the chain continues into the next segment) *)
+Theorem C16_record_roundtrip : forall rs last crc k,
+  Forall raw_ok rs -> Forall crc_rec_wf rs -> crc < lim32 -> (k = 0 \/ 8 <= k) ->
+  let '(rs', bs, crc') := encode_recs crc rs in
+  decode_whole last crc (bs ++ zerosN k) = (rs', FEnd, blen bs, crc').
+Proof. exact record_roundtrip. Qed.
+Print Assumptions C16_record_roundtrip.
+
+(* a single changed byte inside the CRC-covered data of a stored record: the stored bytes are
+   the original frame with that one byte replaced, and decodeRecord rejects them — with
+   io.ErrUnexpectedEOF when the torn-write test fires, with ErrCRCMismatch otherwise; the
+   record is never returned *)
+Theorem C16_byte_flip_in_data : forall last size off crc t pre a b suf rest,
+  let d := pre ++ a :: suf in
+  let d' := pre ++ b :: suf in
+  let r := stamp crc (mkrec t 0 (Some d)) in
+  let r' := mkrec t (r_crc r) (Some d') in
+  a <> b -> t <> crcType -> crc < lim32 -> raw_ok (mkrec t 0 (Some d)) ->
+  off + frame_len r <= size ->
+  frame_of r' = set_byte (data_off t (r_crc r) (blen d) + blen pre) b (frame_of r)
+  /\ (decode_one last size off crc (frame_of r' ++ rest) = DStop FUnexp
+      \/ decode_one last size off crc (frame_of r' ++ rest) = DStop (FErr DRecCrc)).
+Proof. exact byte_flip_in_data. Qed.
+Print Assumptions C16_byte_flip_in_data.
+
+(* … and the rolling chain cannot hide it: whatever records follow, the digest computed over
+   the changed data never meets the digest the later records were stamped with *)
+Theorem C16_byte_flip_chain : forall crc pre a b suf (later : list bytes) d2,
+  a <> b -> crc < lim32 ->
+  let c1 := digest_write crc (pre ++ a :: suf) in
+  let c1' := digest_write crc (pre ++ b :: suf) in
+  let chain c := fold_left digest_write later c in
+  digest_write (chain c1) d2 <> digest_write (chain c1') d2.
+Proof. exact byte_flip_chain. Qed.
+Print Assumptions C16_byte_flip_chain.
+
+(* ------------------------------------------------------------------ the open finding *)
+
+(* the record TYPE byte is not covered by any checksum: changing entryType to stateType in a
+   stored entry record makes Open+ReadAll (and Verify) return, without error, a HardState
+   nobody saved.  KNOWN_FINDINGS.txt: open record-type-byte. *)
+Theorem C16_type_byte_refuted :
+  exists (files : list bytes) (written : list wrec) (off : N) (v : byte) hs ents meta,
+    files = map file_bytes (w_files 4096 (w_run wit_meta wit_ops))
+    /\ written = concat (decode_each files 0)
+    /\ snd (locate written 0 off) = PType
+    /\ read_all true 0 0 (map (set_byte off v) files) = RAOk meta hs ents true
+    /\ hs = mkhs 0 7 3
+    /\ prefix_ok 0 0 written 0 (RAOk meta hs ents true) = false.
+Proof. exact type_byte_refuted_ex. Qed.
+Print Assumptions C16_type_byte_refuted.
+
+(* ------------------------------------------------------------------ snapshot files *)
+
+(* Snapshotter.Load: the snapshot returned is the NEWEST file (*.snap, by name) that passes
+   snap.Read (wrapper parses, data non-empty, CRC matches, inner message parses); every newer
+   file is damaged and exactly those are renamed to .broken; no snapshot is returned only when
+   none is intact *)
+Theorem C16_snap_fallback : forall dir, NoDup (map fst dir) ->
+  match snap_load dir with
+  | (Some (n, d), broken) =>
+      In n (map fst dir) /\ is_snap_name n = true /\ intact dir n
+      /\ (exists c, lookup n dir = Some c /\ snap_read c = SnOk d)
+      /\ (forall m, In m (map fst dir) -> is_snap_name m = true -> newer m n -> ~ intact dir m)
+      /\ (forall m, In m broken <-> (In m (map fst dir) /\ is_snap_name m = true /\ newer m n))
+  | (None, broken) =>
+      (forall m, In m (map fst dir) -> is_snap_name m = true -> ~ intact dir m)
+      /\ (forall m, In m broken <-> (In m (map fst dir) /\ is_snap_name m = true))
+  end.
+Proof. exact snap_load_fallback. Qed.
+Print Assumptions C16_snap_fallback.
+
+(* non-vacuity: a directory whose newest file is garbage and whose older file is intact *)
+Example C16_snap_fallback_ex : snap_load ex_dir = (Some (ex_old, ex_d0), [ex_new]).
+Proof. vm_compute. reflexivity. Qed.
